@@ -105,7 +105,7 @@ def violation_class(v):
 # generation
 
 
-def _gen_op(rng, heavy_ok=True):
+def _gen_op(rng, heavy_ok=True, weights=None):
     r = rng.random()
     op = {"t": rng.randrange(3), "seed": rng.randrange(2 ** 31)}
     w = [
@@ -117,6 +117,8 @@ def _gen_op(rng, heavy_ok=True):
         ("print_contractions", 3), ("has_preprocessing", 1), ("contract_slice", 2), ("gen_output_chunks", 1),
         ("touch_recipes", 2),
     ]
+    if weights is not None:
+        w = weights
     names = [n for n, _ in w]
     name = rng.choices(names, weights=[x for _, x in w])[0]
     op["op"] = name
@@ -219,7 +221,11 @@ def gen_case(prop, seed, tier):
         # deeper bounds in the thorough tier: larger networks, longer histories
         n_max = sw.choice([10, 12])
         dims = sw.choice([(2,), (1, 2, 2), (2, 2, 3)])
-    inputs, output, size_dict = netgen.gen_network(net_rng, n_min=2 if not big else 8, n_max=n_max, dims=dims, feat=feat,
+    prof = prng.stream(seed, "profile")
+    profile = "slice-roundtrip" if (not big and prof.random() < 0.125) else None
+    if profile:
+        n_max = max(n_max, 7)
+    inputs, output, size_dict = netgen.gen_network(net_rng, n_min=(5 if profile else 2) if not big else 8, n_max=n_max, dims=dims, feat=feat,
                                                    max_inds=12 if not big else 16, space_cap=2 ** 16 if not big else 2 ** 13)
     n = len(inputs)
     init_kind = sw.choice(["ssa", "ssa", "ssa", "nary", "greedy", "random-greedy", "optimal", "hyper-sliced"]) if n <= 8 else sw.choice(["ssa", "nary", "greedy"])
@@ -260,8 +266,31 @@ def gen_case(prop, seed, tier):
         if op["op"] in banned:
             continue
         ops.append(op)
+    # swarm profile "slice-roundtrip" (one run in eight, decided by its own stream so that the other runs
+    # are unchanged): one tree, op mix concentrated on remove/sort/contract/restore so that chains such as
+    # `remove_ind; sort_contraction_indices; contract; restore_ind; contract` (recipes cached on the live
+    # tree between two structural changes of the same index) are dense instead of one-in-thousands
+    if profile:
+        # phases: [observe] remove+ observe+ restore/remove+ [observe] [restore/remove] ; "observe" ops fill the
+        # recipe caches of the live tree (sort installs non-default index orders first, half of the time)
+        observe = [("sort_contraction_indices", 30), ("contract", 40), ("get_contractor", 8), ("touch_recipes", 10),
+                   ("contract_slice", 6), ("subtree_reconfigure", 6)]
+        undo = [("restore_ind", 60), ("unslice_rand", 12), ("unslice_all", 6), ("remove_ind", 22)]
+        warmup = [("contract", 70), ("get_contractor", 10), ("touch_recipes", 20)]
+        plan = ([observe] * prof.randint(0, 1) + [[("remove_ind", 1)]] * prof.randint(1, 2)
+                + [[("sort_contraction_indices", 1)]] * (prof.random() < 0.6) + [warmup] * prof.randint(1, 2)
+                + [undo] * prof.randint(1, 2)
+                + [observe] * prof.randint(0, 2) + [undo] * prof.randint(0, 2))
+        ops = []
+        for pw in plan:
+            op = _gen_op(prof, weights=pw)
+            op["t"] = 0
+            if op["op"] in ("remove_ind", "restore_ind", "unslice_rand", "unslice_all") and prof.random() < 0.8:
+                op["inplace"] = True
+            ops.append(op)
     return {
         "seed": seed,
+        "profile": profile,
         "net": {"inputs": inputs, "output": output, "size_dict": size_dict,
                 "array_seed": net_rng.randrange(2 ** 31), "complex": sw.random() < 0.2,
                 "dtype": sw.choice([None, None, None, None, None, "int"])},
@@ -846,6 +875,8 @@ def run_case(prop, case):
     log.add("case", case["seed"], case["net"]["inputs"], case["net"]["output"], case["net"]["size_dict"])
     mutated = False
     warm = False
+    if case.get("profile"):
+        counters["profile:" + case["profile"]] += 1
     with simclock.activate(clk):
         prng.reseed_globals(prng.H(case["seed"], "init"))
         try:
